@@ -477,6 +477,55 @@ def check_stock_defaults(acc):
                           % (n_res, f_res, 'is not on offer anywhere' if source == 'none' else 'is on offer as ' + source, case), case)
 
 
+STOCK_PREFIXES = ['/in', '/v1/api', '/v1/api/', '/a/b/c']
+STOCK_REQS = ['{p}/r', '{p}/r/', '{p}//r', '/{p}/r', '{pp}/r', '{p}/b/', '{p}/b', '{pp}/b']
+
+
+def check_stock_levels(acc, part=0, nparts=1):
+    """Every stock middleware class at two levels (the embedding application's instance and the embedded one's), under
+    literal prefixes of one to three segments: the nested declaration is accepted like the flat one with the merged
+    list and answers every request - also those with repeated slashes inside the prefix - the same way."""
+    from clastic import Application, Route
+    from werkzeug.wrappers import Response
+    from mc import wsgi
+    from props import c03
+    k = 0
+    for label, mk in [('none', None)] + c03.stock_pairs():
+        for prefix in STOCK_PREFIXES:
+            for mode in ('redirect', 'rewrite', 'strict'):
+                k += 1
+                if k % nparts != part:
+                    continue
+                acc.evaluated += 1
+                acc.validated += 1
+                acc.add('nontrivial')
+                case = {'layer': 'STOCK-LEVELS', 'mw': label, 'prefix': prefix, 'mode': mode}
+                ep = lambda: Response('leaf')
+                epb = lambda: Response('branch')
+                pp = prefix.rstrip('/')
+                try:
+                    flat = Application([Route(pp + '/r', ep), Route(pp + '/b/', epb)], middlewares=[mk(0)] if mk else [], slash_mode=mode)
+                except Exception as e:
+                    raise common.InternalError('flat declaration failed: %r' % (e,))
+                try:
+                    inner = Application([Route('/r', ep), Route('/b/', epb)], middlewares=[mk(1)] if mk else [], slash_mode=mode)
+                    nested = Application([(prefix, inner)], middlewares=[mk(0)] if mk else [], slash_mode=mode)
+                except Exception as e:
+                    acc.violation('C10:stock-levels:construct:%s' % label, 'embedding an application that carries its own %s under %r in one '
+                                  'that carries one too raised %r; the flat declaration is accepted' % (label, prefix, e), case)
+                    continue
+                for tmpl in STOCK_REQS:
+                    path = tmpl.format(p=pp, pp=pp.replace('/', '//', 2)[1:] if pp.count('/') > 1 else pp)
+                    a, b = wsgi.call(nested, path, 'GET'), wsgi.call(flat, path, 'GET')
+                    acc.transitions += 2
+                    acc.outcome('stock-levels|%s|rendered' % a.code)
+                    if (a.code, a.body, a.header('Location'), repr(a.raised)) != (b.code, b.body, b.header('Location'), repr(b.raised)):
+                        acc.violation('C10:stock-levels:differs:%s' % ('mw' if mk else 'plain'), 'GET %s: nested declaration (prefix %r, %s mode, %s) answers '
+                                      '%s %r %r, flat declaration %s %r %r' % (path, prefix, mode, label, a.status, (a.body or b'')[:40], a.header('Location'),
+                                                                                b.status, (b.body or b'')[:40], b.header('Location')), case)
+                        break
+
+
 def nshards(tier):
     return 32 if tier == 'quick' else 64
 
@@ -501,6 +550,7 @@ def shard(tier, i, n, seed):
                 acc.sample({'layer': name, 'tree': describe(levels)})
     if i == 2 % n:
         check_stock_defaults(acc)
+    check_stock_levels(acc, i, n)
     for j, (ifac, imws, o1, o2) in enumerate(reuse_cases()):
         if j % n != i:
             continue
@@ -528,6 +578,10 @@ def replay(case):
     common.setup_repo()
     acc = common.Acc()
     b = Builder()
+    if case.get('layer') == 'STOCK-LEVELS':
+        check_stock_levels(acc)
+        bad = [v for v in acc.violations if v['case'] == case]
+        return (False, bad[0]['desc'][:3000]) if bad else (True, 'ok')
     if case.get('layer') == 'STOCK-DEFAULTS':
         check_stock_defaults(acc)
         bad = [v for v in acc.violations if v['case'] == case]
